@@ -786,6 +786,11 @@ impl<'c, 's> Run<'c, 's> {
     pub fn get_length_staged(&mut self, ni: usize, b: &[u8]) -> Len {
         let (off, end) = self.stage(ni, b, false);
         self.st.lib_calls += 1;
+        {
+            let node = &mut self.nodes[ni];
+            node.twin_rx[off..end].copy_from_slice(&b[..end - off]);
+            let _ = real::get_length(&node.twin, &node.twin_rx[off..end]);
+        }
         real::get_length(&self.nodes[ni].ctx, &self.nodes[ni].rxbuf[off..end])
     }
 
@@ -810,6 +815,14 @@ impl<'c, 's> Run<'c, 's> {
                 let (offj, endj) = self.stage(nj, prefix, false);
                 let rj = real::get_length(&self.nodes[nj].ctx, &self.nodes[nj].rxbuf[offj..endj]);
                 self.st.lib_calls += 1;
+                {
+                    let node = &mut self.nodes[nj];
+                    node.twin_rx[offj..endj].copy_from_slice(&prefix[..endj - offj]);
+                    let _ = real::get_length(&node.twin, &node.twin_rx[offj..endj]);
+                }
+                if prefix.len() < 3 {
+                    continue; // shorter inputs only have to be rejected
+                }
                 self.eval(Prop::C17, "C17/context-independence");
                 if rj != r {
                     self.viol(
@@ -889,7 +902,7 @@ impl<'c, 's> Run<'c, 's> {
                     let exact = head_whole && head.got == len;
                     // C04: an unaltered encoder frame at the head of the stream is cut at its own boundary
                     let f = &self.frames[head.frame];
-                    if f.intact() && matches!(f.origin, Origin::Encoder | Origin::Patched | Origin::Response) && head_whole {
+                    if f.intact() && matches!(f.origin, Origin::Encoder | Origin::Patched) && head_whole {
                         self.eval(Prop::C04, "C04/stream-resplit");
                         if !exact {
                             let msg = format!(
